@@ -420,6 +420,36 @@ func (t *tr) libEffect(c *ast.CallExpr, lhs []ast.Expr, define bool, rest func()
 	if code, ok := t.readerEffect(c, lhs, define, rest); ok {
 		return code, true
 	}
+	// n, err := w.Write(bs) on an abstract writer
+	if sel, ok := c.Fun.(*ast.SelectorExpr); ok && sel.Sel.Name == "Write" && len(c.Args) == 1 && len(lhs) == 2 {
+		if obj, kind, ok := t.objectOf(sel.X); ok && kind == "writer" {
+			wr := t.objVar(obj, "wr")
+			bs := t.exprAs(c.Args[0], tBytes)
+			gs := t.takeGuards()
+			nN := t.bindName(c, lhs[0], "int", define)
+			eN := t.bindName(c, lhs[1], tErr, define)
+			return wrapG(gs, "let '("+nN+", "+eN+", "+wr.coq+") := wr_write "+wr.coq+" "+bs+" in\n"+rest()), true
+		}
+	}
+	// endian.PutUint64(buf[:], v) as a statement
+	if lhs == nil && len(c.Args) == 2 {
+		if key, ok := t.cfg.libAlias[t.p.src(c.Fun)]; ok && key == "encoding/binary.LittleEndian.PutUint64" {
+			barg := c.Args[0]
+			if se, ok := barg.(*ast.SliceExpr); ok && se.Low == nil && se.High == nil {
+				barg = se.X
+			}
+			if id, ok := barg.(*ast.Ident); ok {
+				if bv := t.lookup(id.Name); bv != nil && bv.typ == tBytes {
+					v := t.exprAs(c.Args[1], "uint64")
+					t.guard("(8 <=? go_len " + bv.coq + ")")
+					gs := t.takeGuards()
+					return wrapG(gs, "let "+bv.coq+" := (binary_LE_PutUint64 "+bv.coq+" "+v+") in\n"+rest()), true
+				}
+			}
+			t.fail(c, "PutUint64 into something else than a []byte variable")
+			return "GoUnknown", true
+		}
+	}
 	sel, ok := c.Fun.(*ast.SelectorExpr)
 	if !ok {
 		return "", false
